@@ -80,6 +80,12 @@ class Builder:
         name = "T%d" % ci
         nd = len(dims)
         place = "%d*i0+%d" % (draw(sint(0, 3)), draw(sint(0, 5))) if nd == 1 else "%d*i0+%d*i1+%d" % (draw(sint(0, 3)), draw(sint(0, 3)), draw(sint(0, 5)))
+        if self.profile.get("ranks"):
+            # multi-rank programs: often reuse the placement of an earlier class of the same shape, so that several outputs of
+            # one task go to the SAME set of remote ranks and some successors are local to their producer
+            same = [c.place for c in self.prog.classes if len(c.dims) == nd]
+            if same and draw(st.booleans()):
+                place = pick(draw, same)
         cls = TaskClass(name, dims, flows, place=place)
         if draw(st.booleans()):
             cls.priority = pick(draw, [dims[0].name, "0-%s" % dims[0].name, "N-%s" % dims[0].name, "%s*2+1" % dims[-1].name, "%{ return " + dims[0].name + "; %}"])
